@@ -484,9 +484,11 @@ def conclude(prop, tier, seed, res, meta, t0, extra_cov=None):
         cov.update(extra_cov)
     ev = dict(property_id=prop, tier=tier, seed=seed, level='exploration', coverage=cov,
               assumptions=meta.get('assumptions', []), wall_s=round(time.time() - t0, 2), violations=len(viol))
-    os.makedirs(os.path.join(ROOT, 'evidence'), exist_ok=True)
+    # selftest runs against scratch trees (VERIF_REPO set) give VERIF_EVIDENCE_DIR so that /verif/evidence only ever describes /repo
+    evdir = os.environ.get('VERIF_EVIDENCE_DIR') or os.path.join(ROOT, 'evidence')
+    os.makedirs(evdir, exist_ok=True)
     ok_evidence = cov['evaluations'] >= 1 and cov['distinct_nontrivial'] >= 2 and len(cov['samples']) >= 1
-    with open(os.path.join(ROOT, 'evidence', prop + '.json'), 'w') as f:
+    with open(os.path.join(evdir, prop + '.json'), 'w') as f:
         json.dump(ev, f, indent=1)
     print('%s %s seed=%d: %d evaluations, %d distinct non-trivial, %d cases (%d inconclusive), %d anomaly keys (%d known), %.1fs' % (
         prop, tier, seed, cov['evaluations'], distinct, res.cases_done, res.inconclusive, len(by_key), len(by_key) - len(viol), time.time() - t0))
